@@ -473,7 +473,9 @@ def c_corollaries(chk, module, base_ok):
     """Regenerate the C handler translation from the tree under test, build and audit `module`
     (a Props/CxxC.lean file: corollaries for the C simulators of C06's c_step_eq_python / c_run_eq_python).
     Call AFTER chk.audit of the property's own Props module."""
-    cgen_ok = regen_cgen(chk) if base_ok else False
+    # Props/CxxC.lean import Props.C06, which also rests on the loop translations (harness/looprun.py)
+    import looprun
+    cgen_ok = (regen_cgen(chk) and looprun.regen_loops(chk)) if base_ok else False
     if base_ok and cgen_ok:
         chk.lake_build([module])
     chk.audit(module)
